@@ -277,7 +277,7 @@ def parse_package(cur):
 
 
 def parse_rt(line):
-    """-> ('err', cls) | ('ok', graph, saved members, second)"""
+    """-> ('err', cls) | ('ok', graph, saved members, second, (wfb, no_default_clashb))"""
     if line.startswith("err:"):
         return ("err", line[4:])
     fs = line.split("|")
@@ -285,10 +285,11 @@ def parse_rt(line):
         return ("bad", line)
     cur = Cursor(fs)
     cur.raw()
+    hyp = (cur.raw() == "True", cur.raw() == "True")     # wfb, no_default_clashb
     graph = parse_graph(cur)
     saved = parse_package(cur)
     second = cur.raw()
-    return ("ok", graph, saved, second)
+    return ("ok", graph, saved, second, hyp)
 
 
 def parse_pres(line):
